@@ -359,6 +359,9 @@ func oracleRoute(im *impl, roots map[string]*Node, cfg Cfg, rq Req) routeRes {
 		return routeRes{status: 301, class: "mux-redirect"} // "//": not a Rest.li path (an empty key is written '')
 	}
 	if !strings.HasPrefix(rq.Path, prefix) {
+		if strings.Contains(rq.Path, prefix) {
+			return routeRes{status: 404, class: "outside-prefix:prefix-further-down"}
+		}
 		return routeRes{status: 404, class: "outside-prefix"}
 	}
 	segs := strings.Split(rq.Path[len(prefix):], "/")
@@ -377,6 +380,9 @@ func oracleRoute(im *impl, roots map[string]*Node, cfg Cfg, rq Req) routeRes {
 		hasKey = false
 		if n.Coll && len(segs) > 0 {
 			if !validKey(segs[0]) {
+				if len(segs) > 1 {
+					return routeRes{status: 400, restli: true, class: "malformed-key:parent"} // a sub-resource follows
+				}
 				return routeRes{status: 400, restli: true, class: "malformed-key"}
 			}
 			keys = append(keys, segs[0])
@@ -1026,15 +1032,37 @@ func relPaths(t treeSpec, thorough bool) []string {
 		}
 	}
 	keyFor := []string{"1", "(a:1,b:x)", "a%20b"}
+	badKeys := []string{")bad", "1)"}
 	for ni, np := range t.nodes {
-		base := ""
-		for i, s := range np {
-			if i > 0 {
-				base += "/"
+		// the path of the node with well-formed parent keys; bad >= 0: the key of the parent at that position is malformed
+		build := func(bad int) string {
+			b := ""
+			for i, s := range np {
+				if i > 0 {
+					b += "/"
+				}
+				b += s.Name
+				if i < len(np)-1 && s.Coll {
+					if i == bad {
+						b += "/" + badKeys[(ni+i)%len(badKeys)]
+					} else {
+						b += "/" + keyFor[(ni+i)%len(keyFor)]
+					}
+				}
 			}
-			base += s.Name
-			if i < len(np)-1 && s.Coll {
-				base += "/" + keyFor[(ni+i)%len(keyFor)]
+			return b
+		}
+		base := build(-1)
+		// a malformed key at every NON-final position of the nested path (the final one is base/)bad below): the resource
+		// itself, and - for the first such position, every position in the thorough tier - its entity
+		first := true
+		for i := 0; i < len(np)-1; i++ {
+			if np[i].Coll {
+				add(build(i))
+				if first || thorough {
+					add(build(i) + "/7")
+				}
+				first = false
 			}
 		}
 		add(base)
@@ -1043,6 +1071,7 @@ func relPaths(t treeSpec, thorough bool) []string {
 		add(base + "/7/" + ghostSub)
 		add(base + "/" + ghostSub)
 		add(base + "/)bad")
+		add(base + "/)bad/" + ghostSub) // a malformed key in front of an unknown sub-resource
 		add(base + "/.")
 		if thorough {
 			add(base + "/7/")
@@ -1105,7 +1134,7 @@ func mix(a, b uint64) uint64 {
 func main() {
 	cfg := hx.ParseFlags()
 	rep := hx.NewReport("resource trees: every shape with <= 3 nodes ({1 root},{2 roots},{root>sub},{3 roots},{root>sub, root},{root>sub,sub},{root>sub>sub}) x every {collection,simple} assignment, plus deep shapes (5-8 nodes: two / three sibling sub-resources at depth 4 with a child at depth 5, sibling pairs at depths 2 and 3, at depth 7, two roots with sibling pairs at depths 2-4; sibling names are prefixes of each other: sub, subs, su; all collections and seeded {collection,simple} assignments; late registration of a new sibling of the deepest node) x method/finder/action subsets from a 12-row covering design (thorough: plus seeded random subsets), registered in shuffled order on the REAL v2 and root-module servers; " +
-		"requests: verb x X-RestLi-Method value (absent, the 13 names, unknown) x path shape (resource, trailing slash, key, key/sub-resource, unknown sub-resource, malformed key, prefix only, unknown root, escaped root name, empty and dot segments) x query (q registered/unregistered/empty, ids, action, combinations, duplicate, invalid) - FULL product on every tree for the first configuration, a deterministic 1/8 sample for the others - x tunnelled x body x filter lists (0-3 of passing/context-adding/failing-pre/failing-post) x mount (bare, ServeMux, prefix, prefix+ServeMux) x method failing x handler obtained before/after late registrations. " +
+		"requests: verb x X-RestLi-Method value (absent, the 13 names, unknown) x path shape (resource, trailing slash, key, key/sub-resource, unknown sub-resource, malformed key at the final and at every non-final position of a nested path, malformed key before an unknown sub-resource, prefix only, the prefix further down the path / twice / glued to another segment, unknown root, escaped root name, empty and dot segments) x query (q registered/unregistered/empty, ids, action, combinations, duplicate, invalid) - FULL product on every tree for the first configuration, a deterministic 1/8 sample for the others - x tunnelled x body x filter lists (0-3 of passing/context-adding/failing-pre/failing-post) x mount (bare, ServeMux, prefix, prefix+ServeMux) x method failing x handler obtained before/after late registrations. " +
 		"non-trivial = the request is routed to a method (a stub ran or was about to run) or is rejected below the root level; distinct by (tree, configuration, request)")
 	r := hx.NewRand(cfg.Seed)
 	impls := []*impl{&implV2, &implRoot}
@@ -1219,7 +1248,15 @@ func main() {
 				paths = append(paths, prefix+rel)
 			}
 			if c.Prefixed && prefix != "/" {
-				paths = append(paths, "/"+t.nodes[0][0].Name, strings.TrimSuffix(prefix, "/"), strings.TrimSuffix(prefix, "/")+"x/"+t.nodes[0][0].Name, "/")
+				root := t.nodes[0][0].Name
+				bare := strings.TrimSuffix(prefix, "/") // "/api"
+				paths = append(paths, "/"+root, bare, bare+"x/"+root, "/")
+				// the prefix anywhere but at the start: below another segment, below a resource name, twice, glued to the end of
+				// another segment
+				for _, rel := range []string{rels[0], rels[0] + "/7", rels[len(rels)/2]} {
+					paths = append(paths, "/v1"+prefix+rel, "/"+root+prefix+rel, prefix+strings.TrimPrefix(prefix, "/")+rel,
+						"/x"+strings.TrimPrefix(prefix, "/")+rel, "/"+root+"/1"+prefix+rel)
+				}
 			}
 			opsKey := fmt.Sprintf("%s/%d/%v/%d", im.name, ti, late != nil, c.Which)
 			idx := uint64(0)
